@@ -11,6 +11,7 @@ from .common import pmap, result
 from .C01 import _cls
 XS = 'xmlns:xs="http://www.w3.org/2001/XMLSchema"'
 SCHEMA = f'''<xs:schema {XS} targetNamespace="urn:t" xmlns:t="urn:t" elementFormDefault="qualified">
+ <xs:simpleType name="ints"><xs:list itemType="xs:int"/></xs:simpleType>
  <xs:element name="r"><xs:complexType><xs:sequence>
    <xs:element name="item" maxOccurs="unbounded"><xs:complexType><xs:sequence>
       <xs:element name="name" type="xs:token"/><xs:element name="qty" type="xs:positiveInteger" minOccurs="0"/>
@@ -20,6 +21,7 @@ SCHEMA = f'''<xs:schema {XS} targetNamespace="urn:t" xmlns:t="urn:t" elementForm
       <xs:element name="amount" minOccurs="0"><xs:complexType><xs:simpleContent><xs:extension base="xs:decimal"><xs:attribute name="cur" type="xs:token"/></xs:extension></xs:simpleContent></xs:complexType></xs:element>
       <xs:element name="on" minOccurs="0"><xs:complexType><xs:simpleContent><xs:extension base="xs:boolean"><xs:attribute name="src" type="xs:token"/></xs:extension></xs:simpleContent></xs:complexType></xs:element>
       <xs:element name="tries" minOccurs="0" default="3"><xs:complexType><xs:simpleContent><xs:extension base="xs:int"><xs:attribute name="u" type="xs:token"/></xs:extension></xs:simpleContent></xs:complexType></xs:element>
+      <xs:element name="vals" minOccurs="0"><xs:complexType><xs:simpleContent><xs:extension base="t:ints"><xs:attribute name="unit" type="xs:token"/></xs:extension></xs:simpleContent></xs:complexType></xs:element>
       <xs:element name="mix" minOccurs="0"><xs:complexType mixed="true"><xs:sequence><xs:element name="b" type="xs:string" minOccurs="0" maxOccurs="unbounded"/></xs:sequence></xs:complexType></xs:element>
      </xs:sequence><xs:attribute name="id" type="xs:ID" use="required"/><xs:attribute name="w" type="xs:double"/></xs:complexType></xs:element>
   </xs:sequence></xs:complexType></xs:element></xs:schema>'''
@@ -40,6 +42,7 @@ def gen(rng):
         if rng.random() < .5: parts.append(f'<t:amount cur="EUR">{rng.choice(["0", "0.0", "12.5", "-0"])}</t:amount>')       # falsy typed values in simple content
         if rng.random() < .5: parts.append(f'<t:on src="ui">{rng.choice(["false", "0", "true"])}</t:on>')
         if rng.random() < .4: parts.append(f'<t:tries u="n">{rng.choice(["0", "5"])}</t:tries>')
+        if rng.random() < .5: parts.append(rng.choice(['<t:vals>1 2</t:vals>', '<t:vals unit="m">3 4 5</t:vals>', '<t:vals>7</t:vals>']))      # list-valued simple content, with and without its attribute
         if rng.random() < .4: parts.append(f'<t:mix>{rng.choice(["", "x"])}<t:b>y</t:b>{rng.choice(["", "z"])}<t:b>w</t:b></t:mix>')
         w = rng.choice(['', ' w="1.5"', ' w="INF"', ' w="1e3"'])
         items.append(f'<t:item id="i{i}"{w}>' + ''.join(parts) + '</t:item>')
